@@ -2,18 +2,31 @@
   Proofs.C16Main — the session-level refinement theorem of the block store, and its instance with the
   snappy model as codec.
 -/
-import GocoinV.Proofs.C16Refine
+import GocoinV.Proofs.C16NoLoss
 import GocoinV.Proofs.C16SnappyRT
 namespace GocoinV.BlockDB
 
-/-- one session on a fresh directory: every reply satisfies the claim of the durable-map specification -/
+/-- one session on a fresh directory, ANY options (retention / backup included): every reply satisfies the
+    retention-aware claim of the durable-map specification -/
+theorem session_refinesR (env : Env) (ok : EnvOK env) (o : Opts) (ops : List Op)
+    (hops : ∀ op ∈ ops, op.isReopen = false ∧ op.sizeOK) :
+    AllHold (specRunR env init {} (.reopen o :: ops)) (run env init (.reopen o :: ops)).2 := by
+  have h0 := reopen_fresh_ref env o
+  have h1 := run_ref env ok ops (reopen env {} o).1 { isOpen := true, m := [] } h0 hops
+  unfold run specRunR
+  exact ⟨trivial, h1⟩
+
+/-- one session on a fresh directory, retention off: every reply satisfies the (unconditional) claim -/
 theorem session_refines (env : Env) (ok : EnvOK env) (o : Opts) (hk : o.keep = 0) (ops : List Op)
     (hops : ∀ op ∈ ops, op.isReopen = false ∧ op.sizeOK) :
     AllHold (specRun {} (.reopen o :: ops)) (run env init (.reopen o :: ops)).2 := by
-  have h0 := reopen_fresh_ref env o hk
-  have h1 := run_ref env ok ops (reopen env {} o).1 { isOpen := true, m := [] } h0 hops
-  unfold run specRun
-  exact ⟨trivial, h1⟩
+  rw [← specRunR_eq_specRun env (.reopen o :: ops) init {} init_noloss]
+  · exact session_refinesR env ok o ops hops
+  · intro op hop
+    simp only [List.mem_cons] at hop
+    rcases hop with e | hop
+    · subst e; exact hk
+    · exact keep0_of_not_reopen op (hops op hop).1
 
 /-- the codec the store really uses: the snappy model (`oracle_c16` runs the store model with exactly this) -/
 def snappyEnv (hash : Bytes → Bytes) (adv : Bool) : Env :=
